@@ -37,6 +37,8 @@ def generate(seed, stratum, tier):
     k = rng.choice(['assign', 'assign', 'aug', 'read', 'read', 'renew', 'aug_other', 'assign_other'])
     if rng.random() < 0.08:
       k = rng.choice(['copy', 'copy', 'dictcopy', 'deepcopy'])
+    elif rng.random() < 0.08:
+      k = 'aug_side'      # the right-hand side of an augmented assignment assigns the attribute of another instance
     val += 1
     other = rng.choice(live)
     ops.append({'thread': rng.randrange(3), 'inst': i, 'attr': a, 'kind': k, 'k': val * 3 + 1, 'step': step,
@@ -52,6 +54,9 @@ def shrink_candidates(sc):
     yield dict(sc, ops=ops[:i] + ops[i + 1:])
 
 
+_helper = []
+
+
 def text(op):
   t = 'o%d.%s' % (op['inst'], op['attr'])
   if op['kind'] == 'renew':
@@ -59,6 +64,10 @@ def text(op):
   if op['kind'] in ('copy', 'dictcopy', 'deepcopy'):
     return 'pass  # o%d is dropped and replaced by a %s of o%d' % (op['inst'], {'copy': 'copy.copy', 'deepcopy': 'copy.deepcopy',
                                                                                'dictcopy': 'new object whose __dict__ was updated from that'}[op['kind']], op['other'])
+  if op['kind'] == 'aug_side':
+    if op['other'] == op['inst']:
+      return '%s += %d' % (t, op['k'])
+    return '%s += _setget(o%d, %d)   # _setget(o, k): o.a = k; return k' % (t, op['other'], op['k'])
   if op['kind'] == 'aug_other':
     return '%s += o%d.%s' % (t, op['other'], op['other_attr'])
   if op['kind'] == 'assign_other':
@@ -80,7 +89,15 @@ def execute(sc, sched):
   errors = []
   turn = [0]
   ops = sc['ops']
-  codes = [tc.compile_script([text(op)]) for op in ops]
+  codes = [tc.compile_script([text(op).split('   #')[0]]) for op in ops]
+  helper_ns = {}
+  if not _helper:
+    import linecache
+    src = 'def _setget(o, k):\n  o.a = k\n  return k\n'
+    linecache.cache['<c29-helper>'] = (len(src), None, src.splitlines(True), '<c29-helper>')
+    _helper.append(compile(src, '<c29-helper>', 'exec'))
+  seams.enable_events_for([_helper[0]], opcode=False)
+  exec(_helper[0], helper_ns)
   foreign = [False]
   renewed = set()
   copies = set()
@@ -131,7 +148,7 @@ def execute(sc, sched):
           sim.probe('instance_copied')
         turn[0] = idx + 1
         continue
-      ns = {'x': None, '_m': lambda i: None}
+      ns = {'x': None, '_m': lambda i: None, '_setget': helper_ns['_setget']}
       for i, ob in objs.items():
         ns['o%d' % i] = ob
       try:
@@ -147,6 +164,10 @@ def execute(sc, sched):
       if op['kind'] == 'assign':
         model[key] = op['k']
       elif op['kind'] == 'aug':
+        model[key] = model[key] + op['k']
+      elif op['kind'] == 'aug_side':
+        if op['other'] != op['inst']:
+          model[(op['other'], 'a')] = op['k']
         model[key] = model[key] + op['k']
       elif op['kind'] == 'aug_other':
         model[key] = model[key] + model[(op['other'], op['other_attr'])]
@@ -168,7 +189,7 @@ def execute(sc, sched):
   else:
     for idx, txt, got, want in log:
       if got != want:
-        fresh = not any(o['inst'] == ops[idx]['inst'] and o['attr'] == ops[idx]['attr'] and o['kind'] not in ('read', 'renew', 'copy', 'dictcopy', 'deepcopy') for o in ops[:idx])
+        fresh = not any(o['inst'] == ops[idx]['inst'] and o['attr'] == ops[idx]['attr'] and o['kind'] not in ('read', 'renew', 'copy', 'dictcopy', 'deepcopy') for o in ops[:idx]) and not any(o['kind'] == 'aug_side' and o['other'] == ops[idx]['inst'] and ops[idx]['attr'] == 'a' for o in ops[:idx])
         res.violate('foreign-value', {'fresh_instance': fresh},
                     'op#%d `%s` read %r but the value stored on that instance is %r\nhistory: %s' % (idx, txt, got, want, [text(o) for o in ops[:idx + 1]]))
         break
